@@ -472,17 +472,38 @@ def _main(chk: Check, impl: Impl, replay: dict | None) -> int:
         return out
     scale = 4 if chk.thorough else 1
 
+    # pile-ups: 3..6 spec names that all derive the same identifier, optionally with the suffixed names the loop
+    # would hand out already taken (a suffix loop needs several iterations; `while` -> `if` shows here)
+    PILES = [["a-b", "a_b", "a b", "a.b", "a$b", "a__b"], ["foo", "Foo", "FOO", "fOO", "foo_", "_foo"],
+             ["class", "Class", "CLASS", "class_", "_class", "cLASS"], ["x", "X", "x_", "_x", "x-", "-x"],
+             ["$", "", "_", "-", " ", "$$"], ["1", "_1", "1_", "-1", " 1", "1$"]]
+
+    def piles(dup_ok: bool) -> list[list[str]]:
+        out = []
+        for pile in PILES:
+            b = pile[0]
+            for k in (3, 4, 5, 6):
+                out.append(pile[:k])
+                out.append(list(reversed(pile[:k])))
+                if dup_ok:
+                    out.append([b] * k)
+            for taken in ([b + "_2"], [b + "_2", b + "_3"], [b + "2", b + "3"], [b + "_1", b + "_2"]):
+                out.append(pile[:3] + taken)
+                out.append(taken + pile[:4])
+                out.append(pile[:2] + taken + pile[2:4])
+        return out
+
     # fields (dict keys are distinct)
     field_inputs = [c["input"]["arg"] for c in corpus if c["input"]["kind"] == "fields"]
-    for names in combos(small, 150 * scale, 150 * scale):
+    for names in combos(small, 150 * scale, 150 * scale) + piles(False):
         names = list(dict.fromkeys(names))
         field_inputs.append([[n, rng.random() < 0.4] for n in names])
     field_cases = [run_case(impl, "fields", x) for x in field_inputs]
     enum_inputs = [c["input"]["arg"] for c in corpus if c["input"]["kind"] == "enum"]
-    enum_inputs += combos(["a", "A", "A_1", "a-1", "", "$", "1", "if", "IF", "ß"], 150 * scale, 150 * scale)
+    enum_inputs += combos(["a", "A", "A_1", "a-1", "", "$", "1", "if", "IF", "ß"], 150 * scale, 150 * scale) + piles(True)
     enum_cases = [run_case(impl, "enum", x) for x in enum_inputs]
     ops_inputs = [c["input"]["arg"] for c in corpus if c["input"]["kind"] == "ops"]
-    ops_inputs += combos(small + ["foo_3", "getFoo", "get_foo"], 200 * scale, 300 * scale)
+    ops_inputs += combos(small + ["foo_3", "getFoo", "get_foo"], 200 * scale, 300 * scale) + piles(True)
     ops_cases = [run_case(impl, "ops", x) for x in ops_inputs]
     par_inputs = [c["input"]["arg"] for c in corpus if c["input"]["kind"] == "params"]
     bodies = [None, None, "body", "files", "form_data", "bytes_content"]
@@ -498,6 +519,7 @@ def _main(chk: Check, impl: Impl, replay: dict | None) -> int:
     for names in combos(["foo", "Foo", "type", "Type2", "none", "$"], 60 * scale, 120 * scale):
         names = [n if rng.random() < 0.6 else rng.choice(mpool) for n in names]
         mod_inputs.append([n if n.strip() else "$" for n in names])
+    mod_inputs += [[n if n.strip() else "$" for n in names] for names in piles(True)]
     mod_cases = [run_case(impl, "models", x) for x in mod_inputs]
 
     streams = [
